@@ -72,6 +72,55 @@ pub fn run(tier: &str) -> Result<Report, String> {
         }
         sem::sweep(&mut rep, &ctx, &fs, ck);
     }
+    // 1b. the multi-formula entry points: every ordered pair of the plain pool as a batch, each
+    //     position compared with the oracle (the batch variants are entry points as well)
+    {
+        use biodivine_hctl_model_checker::model_checking as mc;
+        use rayon::prelude::*;
+        let mut n_batches = 0u64;
+        for b in nets.iter().filter(|b| if quick { ["con2", "asy2", "imp1"].contains(&b.name.as_str()) } else { b.n <= 2 || b.name == "cyc3" }) {
+            let ctx = NetCtx::new(b.clone(), Labels::default(), "none");
+            let pool: Vec<F> = plain_pool(&ctx.user).into_iter().filter(|f| b.n >= 2 || !f.any(|x| matches!(x, F::Prop(1)))).collect();
+            let expected: Vec<Vec<crate::bridge::Mask>> = pool.iter().map(|f| ctx.expected(f)).collect();
+            let texts: Vec<String> = pool.iter().map(|f| f.show(&ctx.user)).collect();
+            let pairs: Vec<(usize, usize)> = (0..pool.len()).flat_map(|i| (0..pool.len()).map(move |j| (i, j))).collect();
+            let bad: Vec<crate::report::Violation> = pairs
+                .par_iter()
+                .filter_map(|&(i, j)| {
+                    let list = vec![texts[i].as_str(), texts[j].as_str()];
+                    let mut what = vec![];
+                    for (name, r) in [
+                        ("model_check_multiple_formulae_dirty", crate::report::guarded(std::panic::AssertUnwindSafe(|| mc::model_check_multiple_formulae_dirty(list.clone(), &b.graph)))),
+                        ("model_check_multiple_formulae", crate::report::guarded(std::panic::AssertUnwindSafe(|| mc::model_check_multiple_formulae(list.clone(), &b.graph)))),
+                    ] {
+                        match r {
+                            Ok(Ok(rs)) if rs.len() == 2 => {
+                                for (pos, idx) in [(0usize, i), (1usize, j)] {
+                                    let d = if name.ends_with("dirty") { ctx.diff_dirty(&rs[pos], &expected[idx]) } else { ctx.diff_canonical(&rs[pos], &expected[idx]) };
+                                    if let Some(d) = d {
+                                        what.push(format!("{name}({list:?}) position {pos}: {d}"));
+                                    }
+                                }
+                            }
+                            Ok(Ok(rs)) => what.push(format!("{name} returns {} results for 2 formulae", rs.len())),
+                            Ok(Err(e)) => what.push(format!("{name}({list:?}) returns Err: {e}")),
+                            Err(p) => what.push(format!("{name}({list:?}) panics: {p}")),
+                        }
+                    }
+                    if what.is_empty() {
+                        None
+                    } else {
+                        Some(crate::report::Violation { case: json!({"kind": "sem", "net_name": b.name, "net": b.spec, "k": b.k, "labels": {"wild": [], "dom": [], "desc": "none"}, "formula": pool[j], "semantic": true, "unit": false, "entries": "plain4", "batch_note": format!("found as batch {list:?}")}), what: format!("on {}: {}", b.name, what.join(" | ")), size: 5000 + pool[i].size() + pool[j].size() })
+                    }
+                })
+                .collect();
+            n_batches += pairs.len() as u64;
+            rep.evaluations += pairs.len() as u64 * 4;
+            rep.traces_validated += pairs.len() as u64 * 2 * b.cols.len() as u64;
+            rep.violations.extend(bad.into_iter().take(20));
+        }
+        parts.push(json!({"part": "batch entry points on ordered pairs of the plain pool", "batches": n_batches}));
+    }
     // 2. all 2-variable networks of the grammar
     let (all2, info) = all2_nets(3, if quick { Some(1) } else { None })?;
     rep.set("all_2_variable_networks", info);
@@ -113,6 +162,6 @@ pub fn run(tier: &str) -> Result<Report, String> {
     }
     parts.push(json!({"part": "operator slices", "nodes_exactly": m_slice, "slices": if quick { sl.len().div_ceil(7) } else { sl.len() }, "slice_names": sl.iter().map(|s| s.0.clone()).collect::<Vec<_>>(), "formulae": slice_total, "networks": slice_nets}));
     rep.set("parts", json!(parts));
-    rep.rule = "(1) all closed formulae with at most max_nodes nodes over the plain operator set and the template families (benchmark formulae, two/three-variable quantifier nests with jumps, duplicated sub-formulae with swapped variable roles, one-free-variable sub-formulae with inner quantifiers duplicated at equal and different quantifier depths in both orders) on every core network through model_check_formula, _dirty, model_check_tree, _tree_dirty; (2) all closed formulae with <= 3 (every 25th network: 4) nodes on every network of the de-duplicated family of ALL 2-variable networks of the grammar; (3) all closed formulae with exactly m nodes in every operator slice (each pair of operator groups x each quantifier, jump included). Every result is compared on every state x valid colour with the explicit-state oracle; distinct_nontrivial = number of distinct (network, verdict table) pairs that are neither empty nor full".into();
+    rep.rule = "(1) all closed formulae with at most max_nodes nodes over the plain operator set and the template families (benchmark formulae, two/three-variable quantifier nests with jumps, duplicated sub-formulae with swapped variable roles, one-free-variable sub-formulae with inner quantifiers duplicated at equal and different quantifier depths in both orders) on every core network through model_check_formula, _dirty, model_check_tree, _tree_dirty; (1b) every ordered pair of a pool of closed formulae as a two-element batch through model_check_multiple_formulae(_dirty), each position against the oracle; (2) all closed formulae with <= 3 (every 25th network: 4) nodes on every network of the de-duplicated family of ALL 2-variable networks of the grammar; (3) all closed formulae with exactly m nodes in every operator slice (each pair of operator groups x each quantifier, jump included). Every result is compared on every state x valid colour with the explicit-state oracle; distinct_nontrivial = number of distinct (network, verdict table) pairs that are neither empty nor full".into();
     Ok(rep)
 }
